@@ -68,6 +68,11 @@ func init() {
 		dref.Executor = "default"
 		jobs = append(jobs, concJob("Get‖Refresh/default", dref, nil, [][]string{{"load 1 val"}, {"refresh 1 val"}}, or, "native", 2, false, 8, 60))
 		jobs = append(jobs, concJob("staleGet‖staleGet/default", dref, []string{"set 1", "adv 50"}, [][]string{{"load 1 val"}, {"load 1 val"}}, or, "native", 2, false, 8, 60))
+		// two automatic bulk refreshes of one stale key handed to an asynchronous executor; one racing a write
+		dsz := dref
+		dsz.MaxSize = 4
+		jobs = append(jobs, concJob("staleBulkGet‖staleBulkGet/default", dsz, []string{"set 1", "set 2", "adv 50"}, [][]string{{"bulk 1,2 full"}, {"bulk 1 full"}}, or, "native", 1, false, 8, 60))
+		jobs = append(jobs, concJob("staleBulkGet‖Set/default", dsz, []string{"set 1", "set 2", "adv 50"}, [][]string{{"bulk 1,2 full"}, {"set 1"}}, or, "native", 1, false, 8, 60))
 		return jobs
 	}
 
